@@ -63,6 +63,54 @@ def listing_tokens(v: Any, leaf: Any = None) -> Optional[Tuple[Any, ...]]:
     return (sep, tuple(toks), over)
 
 
+def container_adds(effects: List[Any], container: Any, depth: int = 0, ctor: bool = False) -> List[Tuple[str, Any, int]]:
+    """What is added to `container` (the head tag, or a TagList) on this path, in order: ('item', value, position) for one node,
+    ('map', <comprehension>, position) for a whole computed list, ('other', value, position) otherwise. append(x) == extend([x]);
+    extend([]) adds nothing; adding a TagList that was itself built on this path adds what that list was given (constructor
+    arguments, then its own appends/extends)."""
+    out: List[Tuple[str, Any, int]] = []
+    if depth > 4:
+        return out
+
+    def one(v_: Any, pos_: int) -> None:
+        if isinstance(v_, SNew) and v_.cls_name == "TagList":
+            for a_ in list(v_.args) + list(v_.star):
+                one(a_, pos_)
+            out.extend((k_, x_, pos_) for k_, x_, _ in container_adds(effects, v_, depth + 1))
+        elif isinstance(v_, SList) and v_.mode == "map":
+            out.append(("map", v_, pos_))
+        elif isinstance(v_, SList) and v_.mode == "concrete":
+            for i_ in v_.items:
+                if isinstance(i_, SSplat):
+                    sv_ = i_.value
+                    out.append(("map" if isinstance(sv_, SList) and sv_.mode == "map" else "other", sv_, pos_))
+                else:
+                    one(i_, pos_)
+        elif isinstance(v_, (list, tuple)):
+            for i_ in v_:
+                one(i_, pos_)
+        else:
+            out.append(("item", v_, pos_))
+
+    if ctor and isinstance(container, SNew) and container.cls_name == "TagList":
+        for a_ in list(container.args) + list(container.star):
+            one(a_, -1)
+    for pos, e in enumerate(effects):
+        if e.kind != "call" or e.key is not container:
+            continue
+        q_ = getattr(e.target, "qual", "")
+        if q_ in ("Tag.append", "TagList.append"):
+            for v in e.value or []:
+                one(v, pos)
+        elif q_ in ("Tag.extend", "TagList.extend") and e.value:
+            v = e.value[0]
+            if isinstance(v, (SList, list, tuple)) or (isinstance(v, SNew) and v.cls_name == "TagList"):
+                one(v, pos)
+            else:
+                out.append(("other", v, pos))
+    return out
+
+
 def hoist_listing_shapes(prog: Any, I: Interp) -> List[Tuple[Any, Any]]:
     """(separator, item tokens) of every dependency listing HTMLDocument._hoist_head_content can write (for sibling comparison)."""
     fn = prog.function(CORE, "HTMLDocument._hoist_head_content")
@@ -78,17 +126,13 @@ def hoist_listing_shapes(prog: Any, I: Interp) -> List[Tuple[Any, Any]]:
     for l in I.run_function(CORE, "HTMLDocument._hoist_head_content", mk, cfg):
         if l.kind != "return":
             continue
+        heads = []
         for e in l.effects:
-            if e.kind != "call" or getattr(e.target, "qual", "") not in ("Tag.append", "Tag.extend"):
-                continue
-            vals = []
-            for v in e.value or []:
-                if isinstance(v, SList) and v.mode == "concrete":
-                    vals += [i.value if isinstance(i, SSplat) else i for i in v.items]
-                else:
-                    vals.append(v)
-            for v in vals:
-                if isinstance(v, SNew) and v.args[:1] == ("script",) and len(v.args) > 1:
+            if e.kind == "call" and getattr(e.target, "qual", "") in ("Tag.append", "Tag.extend") and not any(e.key is h for h in heads):
+                heads.append(e.key)
+        for h in heads:
+            for kind_, v, _ in container_adds(l.effects, h):
+                if kind_ == "item" and isinstance(v, SNew) and v.args[:1] == ("script",) and len(v.args) > 1:
                     lt = listing_tokens(v.args[1], l)
                     shape = (lt[0], lt[1]) if lt is not None else ("?", short(v.args[1]))
                     if shape not in out:
@@ -462,30 +506,7 @@ def hoist_obligations(ctx: Ctx, I: Interp) -> None:
         class _Add:
             def __init__(self, kind: str, value: Any, pos: int):
                 self.kind, self.value, self.pos = kind, [value], pos
-        adds: List[Any] = []
-        for pos_, e in enumerate(l.effects):
-            if e.kind != "call" or e.key is not head:
-                continue
-            q_ = getattr(e.target, "qual", "")
-            if q_ == "Tag.append":
-                for v_ in e.value or []:
-                    adds.append(_Add("item", v_, pos_))
-            elif q_ == "Tag.extend" and e.value:
-                v_ = e.value[0]
-                if isinstance(v_, SList) and v_.mode == "map":
-                    adds.append(_Add("map", v_, pos_))
-                elif isinstance(v_, SList) and v_.mode == "concrete":
-                    for i_ in v_.items:
-                        if isinstance(i_, SSplat):
-                            sv_ = i_.value
-                            adds.append(_Add("map" if isinstance(sv_, SList) and sv_.mode == "map" else "other", sv_, pos_))
-                        else:
-                            adds.append(_Add("item", i_, pos_))
-                elif isinstance(v_, (list, tuple)):
-                    for i_ in v_:
-                        adds.append(_Add("item", i_, pos_))
-                else:
-                    adds.append(_Add("other", v_, pos_))
+        adds: List[Any] = [_Add(k_, v_, p_) for k_, v_, p_ in container_adds(l.effects, head)]
         cands: List[Any] = []
         for a_ in adds:
             if a_.kind == "map":
